@@ -142,6 +142,20 @@ let do_rsenc args =
     "R " ^ String.concat "." (List.map hex_of_bytes rep)
   | _ -> "R BADREQ"
 
+(* ---- stream ev:  Z <k> <r> <L> <lastnull> <rows> <vals> <finish 0|1> <perm or -> <esi> ...  -> callback log (matrix columns) *)
+let do_ev args =
+  match args with
+  | k :: r :: l :: ln :: rows :: vals :: fin :: perm :: esis ->
+    let k = int_of_string k and r = int_of_string r and l = int_of_string l in
+    let h = parse_rows rows in
+    let v = List.map bytes_of_hex (String.split_on_char '.' vals) in
+    let pm = if perm = "-" then [] else List.map (fun x -> nat_of_int (int_of_string x)) (String.split_on_char ',' perm) in
+    (match ev_session (nat_of_int k) (nat_of_int r) (nat_of_int l) h (ln = "1") v
+             (List.map (fun e -> nat_of_int (int_of_string e)) esis) (fin = "1") pm with
+     | None -> "R OUT-OF-FUEL"
+     | Some ev -> "R " ^ String.concat "," (List.map (fun c -> let c = int_of_nat c in if c >= r then Printf.sprintf "s%d" (c - r) else Printf.sprintf "r%d" (c + k)) ev))
+  | _ -> "R BADREQ"
+
 (* ---- stream gj:  W <field 8|4> <k> <hex matrix>  -> 0 <hex inverse> | 1 *)
 let do_gj args =
   match args with
@@ -272,6 +286,7 @@ let () =
       | "T" :: args -> print_endline (do_p2d args)
       | "G" :: args -> print_endline (do_rsenc args)
       | "W" :: args -> print_endline (do_gj args)
+      | "Z" :: args -> print_endline (do_ev args)
       | _ -> print_endline "BADREQ"
     done
   with End_of_file -> ()
